@@ -6,7 +6,7 @@ Transcribed from the code that exists. `url.Parse` inside `normalizeOrigin` is *
 model's `normalizeOrigin` covers configuration origins of the shape `scheme://host[:port][/]`
 (what the harness generates and what the documentation asks for); other shapes are reported by the
 driver as outside the modelled domain. `AllowOriginsFunc` is a parameter (a predicate on the
-lower-cased origin); `Next` is not modelled (the harness never configures it).
+lower-cased origin); `Next` is a per-request flag (`Request.skip`).
 -/
 namespace C19
 open B
@@ -76,6 +76,15 @@ def buildCore (cfg : Config) : Option Built :=
     else some { origins := os, subs := ss,
                 allowAll := star || (cfg.allowOrigins.isEmpty && cfg.allowFunc.isNone), cfg := cfg }
 
+/-- `buildCore` without the credentials/wildcard refusal. Used by the driver only, to still evaluate
+    the spec oracle on an implementation that (wrongly) accepted such a configuration. -/
+def buildLax (cfg : Config) : Option Built :=
+  match buildLoop cfg.allowOrigins [] [] with
+  | none => none
+  | some (os, ss, star) =>
+    some { origins := os, subs := ss,
+           allowAll := star || (cfg.allowOrigins.isEmpty && cfg.allowFunc.isNone), cfg := cfg }
+
 /-- cors.go `New`. -/
 def build (cfg : Config) (defaultMethods : List Bytes) : Option Built :=
   buildCore (if cfg.allowMethods.isEmpty then { cfg with allowMethods := defaultMethods } else cfg)
@@ -86,6 +95,7 @@ structure Request where
   acrMethod : Bytes         -- Access-Control-Request-Method
   acrHeaders : Bytes        -- Access-Control-Request-Headers
   acrPrivate : Bytes        -- Access-Control-Request-Private-Network
+  skip : Bool := false      -- `cfg.Next != nil && cfg.Next(c)`: the middleware steps aside
 
 /-- Everything the property talks about in the response. `vary` is the list of names passed to
     `c.Vary` in call order. -/
@@ -142,7 +152,8 @@ def vACRPN : Bytes := b "Access-Control-Request-Private-Network"
 /-- The returned handler. -/
 def handle (bt : Built) (q : Request) : Response :=
   let o := toLower q.origin
-  if o = [] then
+  if q.skip then { next := true, status204 := false }
+  else if o = [] then
     { next := true, status204 := false, vary := if bt.allowAll then [] else [vOrigin] }
   else if q.method = OPTIONS ∧ q.acrMethod = [] then
     { next := true, status204 := false, vary := [vOrigin] }
